@@ -101,3 +101,36 @@ PROBE_CMD(kwinfo) {
     for (const auto& n : jstrs(jget(req, "names"))) out.b(the_parser().isRecognizedKeyword(n));
     out.end_arr();
 }
+
+// {cmd:parse_build, text | files+root, ctx}: parse, then (each in its own try) EclipseState, Schedule, SummaryConfig.
+// Used by the token-mutation part of C20 under the sanitizer build: the reply only says how far construction got.
+#include <opm/input/eclipse/EclipseState/EclipseState.hpp>
+#include <opm/input/eclipse/EclipseState/SummaryConfig/SummaryConfig.hpp>
+#include <opm/input/eclipse/Python/Python.hpp>
+#include <opm/input/eclipse/Schedule/Schedule.hpp>
+PROBE_CMD(parse_build) {
+    std::unique_ptr<Opm::Deck> deck;
+    try {
+        deck = std::make_unique<Opm::Deck>(do_parse(req, the_parser()));
+    } catch (const std::exception& e) {
+        out.kv_s("stage", "rejected-by-parser");
+        return;
+    }
+    out.kv_i("keywords", deck->size());
+    std::string stage = "deck";
+    auto ctx = make_context(jstr(req, "ctx", "strict"));
+    Opm::ErrorGuard errors;
+    struct Clear { Opm::ErrorGuard& e; ~Clear() { e.clear(); } } clear{errors};
+    std::unique_ptr<Opm::EclipseState> es;
+    try { es = std::make_unique<Opm::EclipseState>(*deck); stage = "eclipse_state"; } catch (const std::exception&) {}
+    if (es) {
+        std::unique_ptr<Opm::Schedule> sched;
+        try { sched = std::make_unique<Opm::Schedule>(*deck, *es, ctx, errors, std::make_shared<Opm::Python>()); stage = "schedule"; }
+        catch (const std::exception&) {}
+        if (sched) {
+            try { Opm::SummaryConfig sc(*deck, *sched, es->fieldProps(), es->aquifer(), ctx, errors); stage = "summary_config"; }
+            catch (const std::exception&) {}
+        }
+    }
+    out.kv_s("stage", stage);
+}
